@@ -592,7 +592,13 @@ fn stream_intersection(sink: &mut Sink, rng: &mut Rng, args: &Args) {
                 Some(m) => {
                     // soundness: every result field is a field of s (same attributes) that other also has
                     let pm = path_map(m);
-                    let sound = unique_sibling_names(m) && pm.iter().all(|(p, a)| ps.get(p) == Some(a) && po.contains_key(p));
+                    // (with ignore_types a top-level pair that is not struct/struct or list/list keeps s's field whole)
+                    let whole = |top: &String| -> bool {
+                        let (x, y) = (&ps[&vec![top.clone()]], &po[&vec![top.clone()]]);
+                        ign && !((x.ty == Ty::Struct && y.ty == Ty::Struct) || (matches!(x.ty, Ty::List(_)) && matches!(y.ty, Ty::List(_))))
+                    };
+                    let sound = unique_sibling_names(m)
+                        && pm.iter().all(|(p, a)| ps.get(p) == Some(a) && po.contains_key(&vec![p[0].clone()]) && (po.contains_key(p) || whole(&p[0])));
                     // completeness: a leaf present in both with the same type under struct/struct or list/list parents is kept
                     let complete = ps.iter().all(|(p, a)| {
                         let Some(b) = po.get(p) else { return true };
@@ -1174,6 +1180,14 @@ pub fn run(args: &Args) -> i32 {
     stream_projection(&mut sink, &mut rng.fork(), args);
     stream_pb(&mut sink, &mut rng.fork(), args);
     e2e::run(&mut sink, &mut rng.fork(), args);
+    // coqc spends its time elaborating the case literals: smaller shards, evaluated in parallel
+    for s in sink.streams.iter_mut() {
+        s.shard = match s.name.as_str() {
+            "parse" | "format" => 400,
+            "merge" | "intersection" | "exclude" | "projection" => 70,
+            _ => 110,
+        };
+    }
     sink.notes.push(
         "paths: exhaustive over {a . `}^(<=5) for parse and over 1-2 segments of length <=2 for format, plus random unicode; schemas: random nested trees (struct/list/large_list/fsl/fsb/prims) with adversarial names, id modes fresh/sparse/duplicate/unassigned/negative; second operands are sub-forests, perturbed copies or unrelated schemas".into(),
     );
